@@ -217,7 +217,8 @@ def main(argv=None):
 
 
 def write_evidence(prop, tier, seed, level, cov, assumptions, wall, violations):
-    d = os.path.join(core.VERIF, 'evidence')
+    # evidence/ describes /repo only; a self-test run against a scratch copy (VERIF_REPO) must not overwrite it
+    d = os.path.join(core.VERIF, 'evidence') if core.REPO == '/repo' else os.path.join(core.VERIF, '.work', 'evidence-selftest')
     os.makedirs(d, exist_ok=True)
     ev = {'property_id': prop, 'tier': tier, 'seed': seed, 'level': level, 'coverage': cov,
           'assumptions': assumptions, 'wall_s': round(wall, 2), 'violations': violations}
